@@ -1070,7 +1070,7 @@ def run(ctx):
     # a sibling file of the same size (frames/f1.raw -> f3.raw), with the victim intact (nothing written) and damaged (repaired)
     from props import cli_proc
     cli_proc.stream(ctx, ['C01-header-efilepath', 'C01-whole-efilepath', 'C03-header-sibling', 'C03-whole-sibling',
-                          'C01-header-sibling', 'C01-whole-sibling', 'C01-header-pathskip', 'C01-whole-pathskip'])
+                          'C01-header-sibling', 'C01-whole-sibling', 'C01-header-pathskip', 'C01-whole-pathskip', 'C03-header-sizememo', 'C03-whole-sizememo', 'C01-header-sizememo', 'C01-whole-sizememo'])
 
 
 def replay_case(ctx, case):
